@@ -64,6 +64,7 @@ REGIONS = {
     'renege_dyn': dict(renege=1.0, dyn=1.0, multiclass=True),     # reneging x class change while waiting (C17)
     'ps': dict(ps=1.0, noblock=True),
     'deadlock': dict(block=1.0, deadlock=True),
+    'renege_jockey': dict(renege=1.0, routers=1.0, jockey=True, block=0.6),
     'preempt_deep': dict(prio=1.0, preempt=1.0, noblock=True, deep=True),
     'jsq_preempt': dict(routers=1.0, jsq=True, prio=1.0, preempt=1.0, noblock=True, multiclass=True),
     'all': dict(prio=0.4, preempt=0.3, sched=0.3, schedpre=0.3, slotted=0.15, renege=0.3, dyn=0.2, routers=0.3,
@@ -140,6 +141,10 @@ def gen(region, seed, size='quick'):
         return {'kind': 'tm', 'rows': rows}
     def node_router():
         kind = rng.choice(['direct', 'leave', 'prob', 'jsq', 'lb', 'cycle'] if not f.get('jsq') else ['jsq', 'jsq', 'jsq', 'lb', 'prob'])
+        if f.get('jockey'):
+            kind = rng.choice(['jockey', 'jockey', 'direct', 'prob'])
+        if kind == 'jockey':
+            return {'kind': 'jockey', 'to': rng.choice(list(range(1, n + 1)) + [-1, -1]), 'jock': rng.choice(list(range(1, n + 1)) + [-1])}
         dests = sorted(rng.sample(range(1, n + 1), rng.randint(1, n)))
         if kind == 'direct':
             return {'kind': 'direct', 'to': rng.choice(list(range(1, n + 1)) + [-1])}
@@ -159,7 +164,7 @@ def gen(region, seed, size='quick'):
     routing = []
     for c in range(k):
         if P('routers'):
-            r = rng.random() if not f.get('jsq') else 0.0
+            r = rng.random() if not (f.get('jsq') or f.get('jockey')) else 0.0
             if r < 0.5:
                 routing.append({'kind': 'nr', 'routers': [node_router() for _ in range(n)]})
             elif r < 0.75:
